@@ -108,6 +108,8 @@ type Exec struct {
 	inRets   [][]*retState // stack for inlined calls
 	inRes    [][]*types.Var
 	spawns   bool
+	curLoops []*loopCtx // the loops being executed (their counters are visible in at_call clauses)
+	rngFinal map[string]Val
 	varargsByCall map[*ast.CallExpr][]Val // the individual arguments packed into the variadic parameter at a call
 	interiors []interiorPtr // interior pointers taken so far (&p.f, &s[i]): copies kept in step with the location they stand for
 	spawnMode int // > 0 while the calls of a go statement are looked at (call-site assertions and call-history ghosts only)
@@ -1599,6 +1601,8 @@ func (x *Exec) execFor(st *State, s *ast.ForStmt, label string) *flow {
 		st = x.execStmt(st, s.Init, "").normal
 	}
 	lc := &loopCtx{n: n, spec: spec, names: map[string]Val{}, pos: s.Pos(), body: s.Body}
+	x.curLoops = append(x.curLoops, lc)
+	defer func() { x.curLoops = x.curLoops[:len(x.curLoops)-1] }()
 	iter := func(h *State) (exit *State, ends []*State, fl *flow) {
 		c := "true"
 		if s.Cond != nil {
@@ -1653,6 +1657,8 @@ func (x *Exec) execRange(st *State, s *ast.RangeStmt, label string) *flow {
 	out := newFlow()
 	n, spec := x.loopSpec(s.Pos(), "range "+x.prog.text(s.X))
 	lc := &loopCtx{n: n, spec: spec, names: map[string]Val{}, pos: s.Pos(), body: s.Body}
+	x.curLoops = append(x.curLoops, lc)
+	defer func() { x.curLoops = x.curLoops[:len(x.curLoops)-1] }()
 	xt := x.typeOf(s.X)
 	coll := x.ev(st, s.X)
 	coll = x.name("rng", coll)
@@ -1695,6 +1701,12 @@ func (x *Exec) execRange(st *State, s *ast.RangeStmt, label string) *flow {
 	idxName := fmt.Sprintf("idx%d", n)
 	// rngN: the value ranged over (evaluated once, before the loop), for invariants of loops over a call result
 	lc.names[fmt.Sprintf("rng%d", n)] = coll
+	if x.dry == 0 && len(x.inRes) == 0 {
+		if x.rngFinal == nil {
+			x.rngFinal = map[string]Val{}
+		}
+		x.rngFinal[fmt.Sprintf("rng%d", n)] = coll // also visible in ensures clauses (the value the loop ranged over)
+	}
 	keyName := ""
 	if id, ok := s.Key.(*ast.Ident); ok && id.Name != "_" {
 		keyName = id.Name
@@ -1735,11 +1747,11 @@ func (x *Exec) execRange(st *State, s *ast.RangeStmt, label string) *flow {
 			end, brk := finish(f)
 			return end, brk, f
 		}
+		setIdx(lc.names, x.vc.intLit(0))
 		vars, keys := x.modifiedBy(st, func(b *State) []*State {
 			end, brk, _ := iter(b, x.vc.intLit(0))
 			return append([]*State{end}, brk...)
 		})
-		setIdx(lc.names, x.vc.intLit(0))
 		x.checkInvs(st, lc, "init")
 		h := st
 		x.havocMods(h, vars, keys)
